@@ -19,6 +19,12 @@ CLAIMED = {
              design='4/C02',
              note='Trusted: Coq kernel, bison --xml as the description of the parser bison generates, the .y/.l readers, the hand-written reference table OpTableRef.v, extraction, utapdump. '
                   'Partial: floating literals are tested against correctly rounded conversion only; binder types, dynamic and MITL expressions are outside the SR model.'),
+ 'C03': dict(technique='Coq proof that the printer model round-trips through the SR machine whenever the decidable predicate `covered` holds, printer precedence table regenerated from get_precedence, byte-level correspondence of the printer model with str(), direct print/re-parse oracle on expressions and queries',
+             text='C03_print_safe: for all trees, if the printer\'s parentheses are the table-required ones plus its own extras (decidable `covered`, evaluated by the extracted model on every generated tree) then parse(print t) = t and printing is idempotent; '
+                  'the hand model of expression_t::print is compared with the real str() on every case, and the implementation oracle parse(str(e)) equal e / str idempotent runs on all type-correct expressions and 60+ query forms.',
+             design='4/C03',
+             note='Trusted as for C02 plus the reader of get_precedence and the hand model PrintImpl.v. Partial: query forms (Pr, E, simulate, control, minE...) and double formatting are decided by the implementation oracle only; '
+                  'trees on which `covered` is false (conservative spine condition) are decided by the oracle; binder symbols are compared up to alpha-equivalence.'),
 }
 NOT_YET = 'check not built yet in this revision (work in progress, see DESIGN.md section 7 staging)'
 m = dict(version=1, setup_cmd='tools/setup.sh',
